@@ -14,7 +14,7 @@ META = {
  "property": "C08",
  "harnesses": {
   "h_fail_gfa2": {"kind": "G", "functions": _FUNCS,
-    "bounds": "GFA2 state (header TS/custom tag, S, E x3, G, F, O, U with tag, nested U) after 0/1 successful prefix step (3 choices quick / 5 thorough); then every pair (f1, f2) of calls from a catalogue of 30 mostly failing mutations (duplicate id same/other type, U/O named like a segment/edge/other group kind, GFA1 line, GFA1 segment syntax, wrong VN, half-conflicting header, malformed fields, contradictory group tags, duplicate gap/edge with undefined segments, illegal edit of a reference field, rename onto an id in use, rm of an unknown id); full observation compared around every call that raised",
+    "bounds": "GFA2 state (header TS/custom tag, S, E x3, G, F, O, U with tag, nested U) after 0/1 successful prefix step (3 choices quick / 5 thorough); then every pair (f1, f2) of calls from a catalogue of 30 mostly failing mutations (duplicate id same/other type, U/O named like a segment/edge/other group kind, GFA1 line, GFA1 segment syntax, wrong VN, half-conflicting header, malformed fields, contradictory group tags, duplicate gap/edge with undefined segments, illegal edit of a reference field, rename onto an id in use, rename to an invalid identifier, rm of an unknown id); full observation compared around every call that raised",
     "timeout": {"quick": 400, "thorough": 900}, "parts": {"quick": 16, "thorough": 16}},
   "h_fail_gfa1": {"kind": "G", "functions": _FUNCS,
     "bounds": "GFA1 state (header VN/TS, S x3, L x3 incl. ID-tagged, C, P x2) after 0/1 successful prefix step; every pair of calls from a catalogue of 24 mostly failing mutations",
@@ -41,14 +41,15 @@ CAT2 = [("add", "S\ts1\t10\t*"), ("add", "E\ts1\ts1+\ts2+\t5\t10$\t0\t5\t*"), ("
         ("add", "U\to1\ts2"), ("add", "E\tg1\ts1+\ts2+\t0\t1\t0\t1\t*"), ("add", "S\ts5\t10\t*\tLN:i:x"), ("add", "E\te9\ts1+\ts2+\t5\t3\t0\t5\t*"),
         ("add", "O\to1\ts7+ s8+\txx:i:1\txx:i:2"), ("add", "U\tu1\ts7 s8\txx:i:9"), ("add", "H\tzz:Z:b\tVN:Z:9"),
         ("rename", "s1", "s2"), ("rename", "e1", "g1"), ("rename", "u1", "s3"), ("rm", "nope"), ("rm", "*"),
-        ("setref", "e1", "sid1"), ("setref", "o1", "items"), ("add", "S\ts6\t10\t*")]
+        ("setref", "e1", "sid1"), ("setref", "o1", "items"), ("add", "S\ts6\t10\t*"),
+        ("rename", "s1", "a b"), ("rename", "e1", ""), ("rename", "o1", "x y")]
 CAT1 = [("add", "S\ts1\t*"), ("add", "P\ts1\ts1+,s2+\t*"), ("add", "L\ts1\t+\ts2\t+\t2M"), ("add", "L\ts1\t+\ts2\t+\t*"),
         ("add", "E\te1\ts1+\ts2+\t0\t1\t0\t1\t*"), ("add", "H\tVN:Z:2.0"), ("add", "S\ts9\t10\t*"), ("add", "L\ts1\t+\ts2\tx\t*"),
         ("add", "X\t1\t2"), ("add", "H\tab:i:1\tTS:i:6"), ("add", "P\tp1\ts2+,s3+\t*"), ("add", "C\ts1\t+\ts2\t+\t-1\t*"),
         ("add", "S\ts5\tACGT\tLN:i:7"), ("add", "P\tp8\ts1+,s2+\t1M,2M,3M"), ("add", "L\ts2\t+\ts3\t+\t1M\tID:Z:s1"),
         ("add", "P\tp7\ts7+,s8+\t*\txx:i:1\txx:i:2"), ("add", "L\ts7\t+\ts8\t+\t*\tID:Z:p1"), ("add", "C\ts7\t+\ts8\t+\t0\t*\tID:Z:s2"),
         ("rename", "s1", "s2"), ("rename", "p1", "s3"), ("rm", "nope"), ("setref", "p1", "segment_names"),
-        ("setref", "s1", "name"), ("add", "S\ts6\t*")]
+        ("setref", "s1", "name"), ("add", "S\ts6\t*"), ("rename", "s1", "*x"), ("rename", "p1", "a b"), ("rename", "s2", "a+,b")]
 
 def _obs(g):
   o = H.full_observation(g)
